@@ -17,7 +17,9 @@ var Monitors = map[string]func(*core.Run){
 	"C14": RunC14,
 	"C15": RunC15,
 	"C16": RunC16,
+	"C17": RunC17,
 	"C18": RunC18,
+	"C19": RunC19,
 	"C20": RunC20,
 	"C11": RunC11,
 	"C12": RunC12,
